@@ -482,9 +482,10 @@ func (vr *variableResolver) resolve(ctx *ExecutionContext) (*Value, error) {
 					}
 
 					if pv.IsNil() {
-						// Workaround to present an interface nil as reflect.Value
-						var empty any = nil
-						parameters = append(parameters, reflect.ValueOf(&empty).Elem())
+						// A nil of the parameter's own type: an interface nil for an interface
+						// parameter, a nil pointer for a pointer parameter (reflect's Call
+						// panics when handed an interface nil for a pointer parameter).
+						parameters = append(parameters, reflect.Zero(fnArg))
 					} else {
 						parameters = append(parameters, reflect.ValueOf(pv.Interface()))
 					}
